@@ -11,6 +11,10 @@ pub fn rand32(cap: u32, bits: u32) -> u32 {
 
 #[cfg(feature = "rand")]
 pub fn rand32(_cap: u32, _bits: u32) -> u32 {
+    #[cfg(droundy_tinyset_verif)]
+    if let Some(v) = verif::scripted() {
+        return v as u32;
+    }
     #[cfg(feature = "deterministic_iteration")]
     compile_error!("Feature rand and deterministic_iteration are mutually exclusive and cannot be enabled together");
     rand::random::<u32>()
@@ -18,6 +22,10 @@ pub fn rand32(_cap: u32, _bits: u32) -> u32 {
 
 #[cfg(not(feature = "rand"))]
 pub fn rand64(cap: usize, bits: u64) -> u64 {
+    #[cfg(droundy_tinyset_verif)]
+    if let Some(v) = verif::scripted() {
+        return v;
+    }
     #[cfg(feature = "deterministic_iteration")]
     {
         // Just multiply each by a large prime to very crudely hash
@@ -47,6 +55,10 @@ pub fn rand64(cap: usize, bits: u64) -> u64 {
 
 #[cfg(feature = "rand")]
 pub fn rand64(_cap: usize, _bits: u64) -> u64 {
+    #[cfg(droundy_tinyset_verif)]
+    if let Some(v) = verif::scripted() {
+        return v;
+    }
     rand::random::<u64>()
 }
 
@@ -57,5 +69,54 @@ pub fn rand_usize(cap: usize, bits: u64) -> usize {
 
 #[cfg(feature = "rand")]
 pub fn rand_usize(_cap: usize, _bits: u64) -> usize {
+    #[cfg(droundy_tinyset_verif)]
+    if let Some(v) = verif::scripted() {
+        return v as usize;
+    }
     rand::random::<usize>()
+}
+
+/// Scripted random draws for external verification tooling.  Only built with
+/// `--cfg droundy_tinyset_verif`.
+#[cfg(droundy_tinyset_verif)]
+pub mod verif {
+    use std::cell::{Cell, RefCell};
+    use std::collections::VecDeque;
+    thread_local! {
+        static SCRIPT: RefCell<VecDeque<u64>> = RefCell::new(VecDeque::new());
+        static UNSCRIPTED: Cell<u64> = Cell::new(0);
+    }
+    /// Queue a value to be returned by the next draw on this thread.
+    pub fn push(v: u64) {
+        SCRIPT.with(|s| s.borrow_mut().push_back(v));
+    }
+    /// Forget all queued values; returns how many were left.
+    pub fn clear() -> usize {
+        SCRIPT.with(|s| {
+            let n = s.borrow().len();
+            s.borrow_mut().clear();
+            n
+        })
+    }
+    /// Number of draws on this thread that found the queue empty.
+    pub fn unscripted() -> u64 {
+        UNSCRIPTED.with(|c| c.get())
+    }
+    pub(crate) fn scripted() -> Option<u64> {
+        let v = SCRIPT.with(|s| s.borrow_mut().pop_front());
+        if v.is_none() {
+            UNSCRIPTED.with(|c| c.set(c.get() + 1));
+        }
+        v
+    }
+    /// The state of the built-in fallback generator.
+    #[cfg(not(feature = "rand"))]
+    pub fn seed() -> u64 {
+        super::SEED.load(super::Ordering::Relaxed)
+    }
+    /// Set the state of the built-in fallback generator.
+    #[cfg(not(feature = "rand"))]
+    pub fn set_seed(v: u64) {
+        super::SEED.store(v, super::Ordering::Relaxed)
+    }
 }
